@@ -337,8 +337,11 @@ func parseLoadFile88(reader io.Reader, coresize Address) (WarriorData, error) {
 				return WarriorData{}, fmt.Errorf("line %d: too many arguments to 'end'", lineNum)
 			}
 
-			// no arguments
+			// no arguments: a bare END ends the file, a bare ORG names no start
 			if len(fields) == 1 {
+				if fields[0] == "org" {
+					return WarriorData{}, fmt.Errorf("line %d: missing argument to 'org'", lineNum)
+				}
 				break
 			}
 
